@@ -445,6 +445,24 @@ func genConfig(r rng, seed uint64, id string, merge bool) *sdl.Program {
 		}
 		p.Sources = append(p.Sources, s)
 	}
+	if many {
+		// the contract leaves the order among equal Order values open, and the reference merge
+		// enumerates every admissible order: keep ties rare in long sequences (at most two files,
+		// distinct Order values among the ordered simulated loaders)
+		files, next := 0, -5
+		for _, s := range p.Sources {
+			switch {
+			case s.Kind == "file":
+				files++
+				if files > 2 {
+					s.Kind, s.Via = "raw", "AddConfigLoader"
+				}
+			case s.Kind == "sim" && s.OrderClass != "":
+				s.Order = next
+				next++
+			}
+		}
+	}
 	// the same document supplied twice with another one in between (A, B, A): the later
 	// copy overrides B again
 	if merge && len(p.Sources) >= 3 && r.p(0.3) {
